@@ -9,8 +9,22 @@ package c04
 //     operation, none running or runnable. The library's channels are private to one call, so
 //     nothing outside that set can ever wake it: this is a deadlock, whatever the clock says. The
 //     proof must hold on two snapshots with the same goroutine set before it is reported;
-//   - deadline reached without such a proof: inconclusive. The process prints the dump and exits
-//     with status 3 and no FAIL line, which the driver maps to "inconclusive" (never a violation).
+//   - busy non-termination (a loop that spins instead of blocking) cannot be seen as a deadlock, and
+//     wall-clock time says nothing on a loaded host. The second criterion is therefore CPU time, a
+//     function of the work done and not of the machine load: the process CPU time (getrusage)
+//     consumed since the call started must exceed max(120 CPU-s, 1000 x the median CPU cost of
+//     earlier same-shape calls in this process) + 2 CPU-ms per input point (x10 under -race), AND
+//     the dumps of two probes >= 10 s apart must both show a goroutine with a gnark-crypto frame
+//     running/runnable. Nothing else runs in the process during a call (the watchdog sleeps), so
+//     this CPU was burned by the call: the largest legitimate call of the thorough tier costs well
+//     under the allowance, a spinning loop reaches it whatever the load. This is reported as a
+//     termination violation; since the runaway goroutine cannot be stopped and pollutes every later
+//     measurement, the process prints the FAIL lines with the dump and exits with status 1;
+//   - deadline reached without either proof: inconclusive. While goroutines of the call are still
+//     running and the CPU allowance is not consumed, the wait is extended (up to 10 x the deadline)
+//     so that a loaded host delays the CPU verdict instead of hiding it. Then the process prints
+//     the dump and exits with status 3 and no FAIL line, which the driver maps to "inconclusive"
+//     (never a violation).
 
 import (
 	"fmt"
@@ -20,6 +34,7 @@ import (
 	"sort"
 	"strings"
 	"sync"
+	"syscall"
 	"time"
 
 	"verif/harness/internal/rep"
@@ -34,7 +49,67 @@ var (
 	wdMinDeadline = time.Duration(rep.EnvInt("VERIF_C04_DEADLINE_S", 60)) * time.Second
 	wdFirstProbe  = time.Duration(rep.EnvInt("VERIF_C04_PROBE_S", 10)) * time.Second
 	wdProbeEvery  = time.Duration(rep.EnvInt("VERIF_C04_PROBE_S", 10)) * time.Second
+	wdCPUMin      = time.Duration(rep.EnvInt("VERIF_C04_CPU_S", 120)) * time.Second // CPU time, not wall time
+	wdAliveGap    = 10 * time.Second                                                // minimal distance of the two "still running" probes
+	wdExtend      = 10                                                              // deadline extension factor while the call is alive
+	wdCPU         = map[string][]time.Duration{}
 )
+
+// cpuNow returns the CPU time (user+system) consumed by this process so far.
+func cpuNow() time.Duration {
+	var ru syscall.Rusage
+	if err := syscall.Getrusage(syscall.RUSAGE_SELF, &ru); err != nil {
+		return 0
+	}
+	return time.Duration(ru.Utime.Nano() + ru.Stime.Nano())
+}
+
+// wdCPUAllowance: max(120 CPU-s, 1000 x median CPU of same-shape calls) + 2 CPU-ms per input point.
+func wdCPUAllowance(shape string, n int) time.Duration {
+	wdMu.Lock()
+	defer wdMu.Unlock()
+	per := 2 * time.Millisecond
+	if raceEnabled {
+		per *= 10
+	}
+	d := wdCPUMin
+	if cs := wdCPU[shape]; len(cs) > 0 {
+		s := append([]time.Duration(nil), cs...)
+		sort.Slice(s, func(i, j int) bool { return s[i] < s[j] })
+		if m := 1000 * s[len(s)/2]; m > d {
+			d = m
+		}
+	}
+	return d + time.Duration(n)*per
+}
+
+func wdRecordCPU(shape string, d time.Duration) {
+	wdMu.Lock()
+	defer wdMu.Unlock()
+	if len(wdCPU[shape]) < 64 {
+		wdCPU[shape] = append(wdCPU[shape], d)
+	}
+}
+
+// aliveLib returns a description of the library goroutines that are running or runnable.
+func aliveLib(dump, marker string) []string {
+	var out []string
+	for _, blk := range strings.Split(dump, "\n\n") {
+		gs := parseDump(blk, marker)
+		if len(gs) != 1 || !gs[0].lib || (gs[0].state != "running" && gs[0].state != "runnable") {
+			continue
+		}
+		top := ""
+		for _, l := range strings.Split(strings.TrimSpace(blk), "\n")[1:] {
+			if !strings.HasPrefix(l, "\t") && strings.Contains(l, marker) {
+				top = strings.TrimSpace(l)
+				break
+			}
+		}
+		out = append(out, fmt.Sprintf("goroutine %s [%s] in %s", gs[0].id, gs[0].state, top))
+	}
+	return out
+}
 
 // wdDeadline: max(60 s, 100 x median of same-shape calls), plus a size allowance (3 ms per input
 // point, x10 under -race) so that the first large call of a shape is not cut short on a loaded host.
@@ -164,7 +239,11 @@ func clip(s string, n int) string {
 type wdVerdict struct {
 	ok       bool   // the call returned
 	deadlock bool   // proven deadlock
-	dump     string // goroutine dump (deadlock or deadline)
+	spin     bool   // proven busy non-termination (CPU criterion)
+	dump     string // goroutine dump (deadlock, spin or deadline)
+	alive    []string
+	cpu      time.Duration // process CPU consumed since the call started
+	allow    time.Duration // CPU allowance that applied
 	panicked interface{}
 	pstack   string
 	elapsed  time.Duration
@@ -175,6 +254,7 @@ func watch(shape, marker string, n int, f func()) wdVerdict {
 	done := make(chan struct{})
 	var v wdVerdict
 	start := time.Now()
+	cpu0 := cpuNow()
 	go func() {
 		defer close(done)
 		defer func() {
@@ -185,31 +265,38 @@ func watch(shape, marker string, n int, f func()) wdVerdict {
 		}()
 		f()
 	}()
+	finished := func() wdVerdict {
+		v.ok = true
+		v.elapsed = time.Since(start)
+		wdRecord(shape, v.elapsed)
+		wdRecordCPU(shape, cpuNow()-cpu0)
+		return v
+	}
 	deadline := wdDeadline(shape, n)
+	allow := wdCPUAllowance(shape, n)
+	v.allow = allow
 	next := wdFirstProbe
+	var lastAlive time.Time // time of the most recent probe that saw the call running, at least wdAliveGap ago or zero
+	var aliveProbes []time.Time
 	for {
 		wait := next
-		if wait > deadline {
+		if wait > deadline && time.Since(start) < deadline {
 			wait = deadline
 		}
 		tm := time.NewTimer(wait - time.Since(start))
 		select {
 		case <-done:
 			tm.Stop()
-			v.ok = true
-			v.elapsed = time.Since(start)
-			wdRecord(shape, v.elapsed)
-			return v
+			return finished()
 		case <-tm.C:
 		}
 		d1 := allStacks()
+		now := time.Now()
 		if p1 := deadlockProof(parseDump(d1, marker)); p1 != nil {
 			// confirm on a second snapshot
 			select {
 			case <-done:
-				v.ok = true
-				v.elapsed = time.Since(start)
-				return v
+				return finished()
 			case <-time.After(500 * time.Millisecond):
 			}
 			d2 := allStacks()
@@ -217,18 +304,42 @@ func watch(shape, marker string, n int, f func()) wdVerdict {
 			if p2 != nil && strings.Join(p1, ",") == strings.Join(p2, ",") {
 				select {
 				case <-done: // finished between the snapshots: not dead
-					v.ok = true
-					v.elapsed = time.Since(start)
-					return v
+					return finished()
 				default:
 				}
 				v.deadlock, v.dump, v.elapsed = true, d2, time.Since(start)
 				return v
 			}
 		}
-		if time.Since(start) >= deadline {
-			v.dump, v.elapsed = d1, time.Since(start)
-			return v
+		alive := aliveLib(d1, marker)
+		burned := cpuNow() - cpu0
+		if len(alive) > 0 {
+			// was the call also seen running at a probe at least wdAliveGap earlier?
+			lastAlive = time.Time{}
+			for _, tp := range aliveProbes {
+				if now.Sub(tp) >= wdAliveGap {
+					lastAlive = tp
+				}
+			}
+			aliveProbes = append(aliveProbes, now)
+			if burned > allow && !lastAlive.IsZero() {
+				select {
+				case <-done:
+					return finished()
+				default:
+				}
+				v.spin, v.dump, v.alive, v.cpu, v.elapsed = true, d1, alive, burned, time.Since(start)
+				return v
+			}
+		} else {
+			aliveProbes = nil
+		}
+		if el := time.Since(start); el >= deadline {
+			// extend while the call is visibly alive and has not yet consumed its CPU allowance
+			if !(len(alive) > 0 && burned <= allow && el < time.Duration(wdExtend)*deadline) {
+				v.dump, v.alive, v.cpu, v.elapsed = d1, alive, burned, el
+				return v
+			}
 		}
 		next += wdProbeEvery
 	}
@@ -244,7 +355,8 @@ type fataler interface {
 }
 
 // guarded runs one library call under the watchdog and converts the outcome:
-// proven deadlock -> property failure; deadline without proof -> process exit 3 (inconclusive);
+// proven deadlock -> property failure; proven busy non-termination -> FAIL lines + exit 1 (the
+// runaway goroutine cannot be stopped); deadline without proof -> process exit 3 (inconclusive);
 // panic in the calling goroutine -> re-raised (rapid reports it as a failure).
 func guarded(t fataler, shape, desc string, n int, f func()) time.Duration {
 	v := watch(shape, libMarker, n, f)
@@ -256,9 +368,16 @@ func guarded(t fataler, shape, desc string, n int, f func()) time.Duration {
 	case v.deadlock:
 		t.Fatalf("%s: the call does not terminate: DEADLOCK proven after %s — every goroutine with a gnark-crypto frame is parked on a channel/semaphore and none is runnable (two identical snapshots):\n%s",
 			desc, v.elapsed.Round(time.Millisecond), clip(libFirst(v.dump, libMarker), 24000))
+	case v.spin:
+		fmt.Printf("--- FAIL: C04 termination violation (busy non-termination)\n")
+		fmt.Printf("    watchdog_test.go:1: %s: the call does not terminate: it has consumed %s of CPU time since it started (allowance max(%s, 1000 x median CPU of same-shape calls) + 2 ms/point = %s; wall %s) and is still running at two probes >= %s apart: %s\n",
+			desc, v.cpu.Round(time.Second), wdCPUMin, v.allow.Round(time.Second), v.elapsed.Round(time.Second), wdAliveGap, strings.Join(v.alive, "; "))
+		fmt.Printf("    to reproduce: same job with -rapid.seed of this run (the driver stores it next to this log)\n%s\nFAIL\n", clip(libFirst(v.dump, libMarker), 24000))
+		rep.Flush()
+		os.Exit(1)
 	default:
-		fmt.Printf("[c04] INCONCLUSIVE: %s still running after %s (deadline max(%s, 100 x median)); goroutines inside gnark-crypto are running/runnable, so this is not a proven deadlock. Dump:\n%s\n",
-			desc, v.elapsed.Round(time.Second), wdMinDeadline, clip(libFirst(v.dump, libMarker), 24000))
+		fmt.Printf("[c04] INCONCLUSIVE: %s still running after %s wall / %s CPU (deadline max(%s, 100 x median), CPU allowance %s); no deadlock proof and the CPU criterion is not met. Running library goroutines: %v. Dump:\n%s\n",
+			desc, v.elapsed.Round(time.Second), v.cpu.Round(time.Second), wdMinDeadline, v.allow.Round(time.Second), v.alive, clip(libFirst(v.dump, libMarker), 24000))
 		rep.Flush()
 		os.Exit(3)
 	}
